@@ -26,7 +26,8 @@ LEVEL_TEXT = ("Histories of 5-60 seeks (three origins, negative, beyond the "
               "operation returned bytes, position, warnings, the commands "
               "seen on the wire and the chip's memory are compared with a "
               "bounded-file model. Randomised exploration of histories with "
-              "boundary-biased arguments.")
+              "boundary-biased arguments."
+              ' A fifth of the allocated cases hold a twin view of a block at the same address on the neighbouring chip; a share of transfers runs with TruncationWarning escalated to an error.')
 LEVEL_NOTE = ("Trusted: the bounded-file model and the machine model. "
               "'Operation' means data/position operations (read, write, seek, "
               "tell, flush, address): len() and slicing of a closed view, "
